@@ -507,7 +507,7 @@ func TestC04(t *testing.T) {
 		}
 		return c
 	}
-	core.Rapid(r, "validity", r.Pick(6000, 250000), gen, wrap)
+	core.Rapid(r, "validity", r.Pick(6000, 1000000), gen, wrap)
 	zones := sortedKeys(cliZones)
 	core.Rapid(r, "cli-tz", r.Pick(48, 1200), func(t *rapid.T) c04CLI {
 		c := c04CLI{Zone: rapid.SampledFrom(zones).Draw(t, "zone"), V: core.Validity{From: genDate(t, "from")}}
